@@ -30,7 +30,12 @@ func init() {
 func isAdmin(t string) bool { return len(t) == 1 && strings.Contains("0A12345", t) }
 
 // Automaton checks one trace (lab or live; events must be in observation order).
-func Automaton(tr []lab.Event) (viol []string, stats map[string]int) {
+func Automaton(tr []lab.Event) (viol []string, stats map[string]int) { return automaton(tr, false) }
+
+// automaton: in live traces wire observations lag behind callbacks, so obligations that compare a
+// wire frame with a callback are only judged in the direction the lag cannot fake, and the
+// logout-notification obligation is judged when the next connection starts or the run ends.
+func automaton(tr []lab.Event, liveTrace bool) (viol []string, stats map[string]int) {
 	stats = map[string]int{}
 	connected := false
 	framesThisConn := 0
@@ -48,7 +53,14 @@ func Automaton(tr []lab.Event) (viol []string, stats map[string]int) {
 	for _, e := range tr {
 		switch e.Kind {
 		case "step":
-			if e.Detail == "connect" {
+			if e.Detail == "connect" || e.Detail == "end of run" {
+				if liveTrace && connected {
+					endConn("the next connection started / the run ended")
+					closed = true
+				}
+				if e.Detail == "end of run" {
+					continue
+				}
 				if connected && !closed {
 					// "Already connected": the offer is refused, the old connection continues
 					continue
@@ -100,7 +112,7 @@ func Automaton(tr []lab.Event) (viol []string, stats map[string]int) {
 					viol = append(viol, "app-before-logon: a first-time application frame was transmitted before the logon handshake completed: "+e.Msg)
 				} else if engineLogoutSent {
 					viol = append(viol, "app-after-logout: a first-time application frame was transmitted after the engine sent its Logout: "+e.Msg)
-				} else if !loggedOnPeriod {
+				} else if !loggedOnPeriod && !liveTrace {
 					viol = append(viol, "app-after-logout: a first-time application frame was transmitted after the logout notification: "+e.Msg)
 				}
 			}
@@ -109,8 +121,10 @@ func Automaton(tr []lab.Event) (viol []string, stats map[string]int) {
 			}
 		case "closed":
 			closed = true
-			endConn("engine closed the connection")
 			stats["closures"]++
+			if !liveTrace {
+				endConn("engine closed the connection")
+			}
 		}
 	}
 	return
